@@ -25,10 +25,10 @@ import (
 func init() { proc.Register("c27-step", step) }
 
 type stepArg struct {
-	Base    string        `json:"base"`
-	Action  string        `json:"action"` // apply | failover-dump | dump | reinstate
-	Progs   []txn.Program `json:"progs,omitempty"`
-	Drops   []string      `json:"drops,omitempty"` // stores to RemoveBtree after the programs
+	Base   string        `json:"base"`
+	Action string        `json:"action"` // apply | failover-dump | dump | reinstate
+	Progs  []txn.Program `json:"progs,omitempty"`
+	Drops  []string      `json:"drops,omitempty"` // stores to RemoveBtree after the programs
 }
 
 type stepOut struct {
